@@ -228,3 +228,87 @@ Section W4Edges.
       + intros [_ B]. rewrite Ed', Ph, (Hold _ Cd) in B. congruence.
   Qed.
 End W4Edges.
+
+(* ---------------------------------------------------------------- user-written handoffs separate
+   subgraphs: if a -> h -> c with h a handoff of the flat graph and the edge h -> c is not delayed,
+   the producer a and the consumer c end up in DIFFERENT subgraphs (otherwise the quotient graph
+   would have the cycle  G -> {h} -> G, contradicting SMInv.inv_acyclic). *)
+From Coq Require Import Relations.
+
+Section UserHandoff.
+  Variables (T : optable) (g p : graph).
+  Hypothesis Hok : flat_ok_b T g = true.
+  Hypothesis Hp : partition_model T g = POk p.
+  Let ks := sort_dedup (node_ids g).
+
+  Theorem user_handoff_separates : forall ein eout,
+    In ein (g_edges g) -> In eout (g_edges g) ->
+    e_dst ein = e_src eout -> is_hoff g (e_dst ein) = true ->
+    is_hoff g (e_src ein) = false -> is_hoff g (e_dst eout) = false ->
+    Model.is_tick T g eout = false ->
+    sg_of p (e_src ein) <> sg_of p (e_dst eout) \/ sg_of p (e_src ein) = None.
+  Proof.
+    intros ein eout Hi Ho Eh Hh Ha Hc Ht.
+    destruct (model_core T g p Hok Hp) as (st & f & ist & groups & topo & P & Ei & Es & Cg & Fg & Em & Ep).
+    destruct (ok_parts T g Hok) as (ND & NDe & Cl & _ & NoMod).
+    assert (Tin : Model.is_tick T g ein = false).
+    { destruct (Model.is_tick T g ein) eqn:E; [|reflexivity]. rewrite (tick_dst_op T g ein E) in Hh. discriminate. }
+    destruct (Cl ein Hi) as [Ka Kh]. destruct (Cl eout Ho) as [_ Kc].
+    set (a := e_src ein) in *. set (h := e_dst ein) in *. set (c := e_dst eout) in *.
+    pose proof (pi_sm _ _ _ _ P) as I.
+    set (np := preds_from (pred_pairs T g (access_pairs_raw g))) in *.
+    (* a is a predecessor of h, h is a predecessor of c *)
+    assert (Pa : In a (np h)).
+    { apply preds_from_In. unfold pred_pairs, base_pairs. apply in_or_app. left. apply in_or_app. left.
+      unfold pipe_pairs. apply in_flat_map. exists ein. split; [exact Hi|]. rewrite Tin. left. reflexivity. }
+    assert (Pc : In h (np c)).
+    { apply preds_from_In. unfold pred_pairs, base_pairs. apply in_or_app. left. apply in_or_app. left.
+      unfold pipe_pairs. apply in_flat_map. exists eout. split; [exact Ho|]. rewrite Ht. left. rewrite <- Eh. reflexivity. }
+    assert (Nah : f a <> f h).
+    { intro E. assert (a = h) by (apply (pi_hoff _ _ _ _ P h a Kh Ka Hh); exact E). rewrite H in Ha. congruence. }
+    assert (Nch : f c <> f h).
+    { intro E. assert (c = h) by (apply (pi_hoff _ _ _ _ P h c Kh Kc Hh); exact E). rewrite H in Hc. congruence. }
+    assert (Nac : f a <> f c).
+    { intro E. apply (inv_acyclic _ _ _ _ _ I (f a)).
+      apply t_trans with (y := f h).
+      - apply t_step. split; [exact Nah|]. exists h, a. auto.
+      - apply t_step. split; [congruence|]. exists c, h. split; [exact Kc|]. split; [congruence|]. auto. }
+    (* equal subgraphs would mean equal classes *)
+    destruct (sg_of p a) as [s|] eqn:Sa; [|right; reflexivity]. left. intro Sc. symmetry in Sc.
+    pose proof (W1_all T g p Hok Hp) as (_ & NDs & Wn & Wd).
+    assert (Ps : g_sgs p = register_sgs (is_g ist) groups) by (subst p; reflexivity).
+    assert (Cls : forall x, In x (node_ids g) -> sg_of p x = Some s -> exists d r,
+               In d (g_sgs p) /\ s_id d = s /\ In x (s_nodes d) /\ forall y, In y (s_nodes d) -> f y = r).
+    { intros x Hx Sx.
+      destruct (old_node_of T g p Hp st ist groups topo Ei Ep x Hx) as (n & Gn & Pn & _).
+      assert (Hn : In (mkNode (n_id n) (n_kind n) (n_loop n) (n_refs n)
+                              (node_sg (register_sgs (is_g ist) groups) (n_id n))
+                              (mark_node (is_g ist) (Full.is_tick ist) n)) (g_nodes p)).
+      { unfold node_of in Pn. clear - Pn. induction (g_nodes p) as [|b l IH]; simpl in Pn; [discriminate|].
+        destruct (N.eqb (n_id b) x); [injection Pn as ->; left; reflexivity|right; auto]. }
+      specialize (Wn _ Hn). unfold member_node in Wn. cbn [n_kind n_sg n_id] in Wn.
+      unfold sg_of in Sx. rewrite Pn in Sx. cbn [n_sg] in Sx.
+      assert (Nid : n_id n = x).
+      { unfold node_of in Gn. clear - Gn. induction (g_nodes g) as [|b l IH]; simpl in Gn; [discriminate|].
+        destruct (N.eqb_spec (n_id b) x); [injection Gn as <-; assumption|auto]. }
+      destruct (n_kind n) eqn:Kd.
+      - destruct Wn as (s' & Sn & Hin & _). rewrite Sx in Sn. injection Sn as <-. rewrite Nid in Hin.
+        unfold sg_nodes in Hin. destruct (find (fun d => N.eqb (s_id d) s) (g_sgs p)) as [d|] eqn:Fd; [|destruct Hin].
+        pose proof (find_some _ _ Fd) as [Hd Eds]. apply N.eqb_eq in Eds.
+        assert (Hd' : In d (register_sgs (is_g ist) groups)) by (rewrite <- Ps; exact Hd).
+        destruct (register_In _ _ _ Hd') as (Hg & _ & _).
+        rewrite Forall_forall in Fg. destruct (Fg _ Hg) as (_ & r & _ & _ & Hcl).
+        exists d, r. split; [exact Hd|]. split; [exact Eds|]. split; [exact Hin|]. intros y Hy. exact (proj2 (proj1 (Hcl y) Hy)).
+      - rewrite Wn in Sx. discriminate.
+      - destruct Wn. }
+    destruct (Cls a (proj1 (In_sort_dedup' _ _) Ka) Sa) as (d1 & r1 & Hd1 & E1 & In1 & C1).
+    destruct (Cls c (proj1 (In_sort_dedup' _ _) Kc) Sc) as (d2 & r2 & Hd2 & E2 & In2 & C2).
+    assert (d1 = d2).
+    { rewrite <- E2 in E1. clear - NDs Hd1 Hd2 E1. induction (g_sgs p) as [|b l IH]; [contradiction|].
+      simpl in NDs. inversion NDs as [|? ? Hn ND']; subst.
+      destruct Hd1 as [->|H1]; destruct Hd2 as [->|H2]; auto.
+      - exfalso. apply Hn. rewrite E1. apply in_map. exact H2.
+      - exfalso. apply Hn. rewrite <- E1. apply in_map. exact H1. }
+    subst d2. apply Nac. rewrite (C1 a In1), (C1 c In2). reflexivity.
+  Qed.
+End UserHandoff.
